@@ -132,6 +132,26 @@ Example C18_no_constant_needed :
   ex_run (change_signature [("?z", "c0")] ex_act) <> ex_run ex_act.
 Proof. exact constant_changes_behaviour. Qed.
 
+(* ---- the property read literally: ANY mapping that moves parameters only and is injective on them.  It is false of
+        the code (recorded finding D75: nothing compares the new names with the action's quantified variables and
+        constants); C18_rename above is the partial theorem on the largest fragment where it holds - the side
+        condition renaming_ok adds exactly "a moved name is not a constant and does not land on a constant, on a
+        quantified variable or on another name the action mentions" - and this is the refutation (witness: ?z -> ?u in
+        an action with (forall (?u - t0) (or (p ?u ?z) (q ?u))), evaluated by vm_compute) ---- *)
+Definition C18_full_statement : Prop :=
+  forall (dom : mdomain) (a : maction) (m : renaming),
+    well_formed a = true ->
+    (forall n, ~ In n (dkeys (ma_sig a)) -> rn m n = n) ->
+    (forall x y, In x (dkeys (ma_sig a)) -> In y (dkeys (ma_sig a)) -> rn m x = rn m y -> x = y) ->
+    same_behaviour dom a (change_signature m a).
+
+Theorem C18_rename_partial (dom : mdomain) (m : renaming) (a : maction) :
+  renaming_ok dom a m = true -> same_behaviour dom a (change_signature m a).
+Proof. exact (rename_same_behaviour dom a m). Qed.
+
+Theorem C18_refuted : ~ C18_full_statement.
+Proof. exact full_statement_refuted. Qed.
+
 (* ---- what the repair changed (model of the code before D23, Model.ChangeSignature.legacy_change_signature) ---- *)
 (* the old in-place loop was right exactly where the repository's tests used it: every key to a fresh name *)
 Theorem C18_legacy_partial {V} (m : renaming) (sg : pydict V) :
@@ -162,5 +182,7 @@ Print Assumptions C18_side_condition.
 Print Assumptions C18_parser_well_formed.
 Print Assumptions C18_rename_parsed.
 Print Assumptions C18_denoted_behaviour.
+Print Assumptions C18_rename_partial.
+Print Assumptions C18_refuted.
 Print Assumptions C18_legacy_partial.
 Print Assumptions C18_legacy_refuted.
